@@ -135,7 +135,8 @@ impl<R: Read + Seek> ReadBox<&mut R> for Avc1Box {
                     avcc,
                 });
             } else {
-                skip_bytes_to(reader, current + s)?;
+                // `s` is relative to the last 8 bytes of the header (64-bit sizes included)
+                skip_box(reader, s)?;
             }
         }
     }
